@@ -138,7 +138,8 @@ def rule_SER(FA):
                     if t['k'] == 'call' and 'fn' in t['f'] and t['f']['fn']['name'] == 'serialize_field' and t['f']['fn'].get('gargs')]
             wrappers = [x for x in stys if '__SerializeWith' in x]
             extra = sorted(names - set(fields))
-            if ser['derived'] and extra:
+            # a renamed field (`#[serde(rename = ..)]`) changes a name bincode never writes; an ADDITIONAL entry is what matters
+            if ser['derived'] and extra and len(names) > len([x for x in fields if x in names]) + len([x for x in fields if x not in names]):
                 out.append(Inst('R-SER', 'R-SER|%s|writer adds nothing' % base, 'violation', ser['span'],
                                 'the derived Serialize of %s writes `%s`, which is not a field (serde(tag = ..)): the derived Deserialize does not read it back, every later field is misparsed' % (short, ', '.join(extra)), props))
             if wrappers:
@@ -175,7 +176,9 @@ def rule_SER(FA):
                                 'the derived Serialize of %s writes a map of unknown length (serde(flatten)): bincode rejects it, the value cannot be serialized' % short, props))
             used = _self_fields_used(ser)
             missing = [x for x in fields if x not in names and x not in used]
-            skipped = [x for x in fields if x not in names] if names else []
+            # a field counts as written when its NAME is passed to serialize_field or the field itself is read by the
+            # serializer (`#[serde(rename = ..)]` changes the name only, and bincode does not write names)
+            skipped = [x for x in fields if x not in names and x not in used] if names else []
             key = 'R-SER|%s|serialize covers fields' % base
             if (names and skipped) or (not names and missing):
                 bad = skipped or missing
